@@ -105,3 +105,9 @@ pub use mrt_file_in::unit::verif_hooks_c16 as verif_mrt_file_in_c16;
 /// for `crate::verif` users (bridge RotoRib).
 #[cfg(feature = "verif-hooks")]
 pub use filter::unit::verif_hooks_rotorib as verif_filter_unit;
+
+/// Verification hooks (feature `verif-hooks`, add-only): the `filter` unit
+/// built from harness-owned links and run as `Filter::run` does (area
+/// ReconfUnits).
+#[cfg(feature = "verif-hooks")]
+pub use filter::unit::verif_hooks_reconfunits as verif_filter_reconfunits;
